@@ -31,8 +31,8 @@ type propCfg struct {
 }
 
 var realStub = map[string]interface{}{
-	"real": []string{"every line of package tchannel and its sub-packages typed, tnet, trand, relay, raw, json, http, thrift, thrift/arg2, internal/argreader from /repo's current working tree (scheduling calls inserted by cmd/vinstr)", "context, Go channels and timers", "Go runtime (1-line select-order hook through -overlay)"},
-	"stub": []string{"network: simnet (sim/net.go) through ChannelOptions.Dialer and Channel.Serve(listener)", "clock: testing/synctest fake clock", "sync.Mutex/RWMutex/Cond/WaitGroup/Once/Pool: scheduler-aware equivalents (simrt)", "RNG seeds: drawn from the run's decision stream", "frame pool: ownership-tracking pool through ConnectionOptions.FramePool", "logger, stats reporter (null), tracer (noop)", "RelayHost, handlers: application code by definition"},
+	"real":    []string{"every line of package tchannel and its sub-packages typed, tnet, trand, relay, raw, json, http, thrift, thrift/arg2, internal/argreader from /repo's current working tree (scheduling calls inserted by cmd/vinstr)", "context, Go channels and timers", "Go runtime (1-line select-order hook through -overlay)"},
+	"stub":    []string{"network: simnet (sim/net.go) through ChannelOptions.Dialer and Channel.Serve(listener)", "clock: testing/synctest fake clock", "sync.Mutex/RWMutex/Cond/WaitGroup/Once/Pool: scheduler-aware equivalents (simrt)", "RNG seeds: drawn from the run's decision stream", "frame pool: ownership-tracking pool through ConnectionOptions.FramePool", "logger, stats reporter (null), tracer (noop)", "RelayHost, handlers: application code by definition"},
 	"not_run": []string{"tos, sockio_*, localip, hyperbahn, crossdock, benchmark, real kernel sockets"},
 }
 
@@ -46,7 +46,7 @@ func props() map[string]*propCfg {
 	add(&propCfg{ID: "C05", Level: "exploration", Families: []famWeight{{"mesh", 2, false}, {"relay", 1, false}, {"dial", 1, false}, {"pressure", 1, false}}, QuickRuns: 4000, ThorSecs: 600})
 	add(&propCfg{ID: "C06", Level: "exploration", Families: []famWeight{{"codec6", 2, false}, {"mesh", 1, false}, {"frag", 1, false}}, QuickRuns: 4000, ThorSecs: 600})
 	add(&propCfg{ID: "C07", Level: "exploration", Families: []famWeight{{"close", 1, false}}, QuickRuns: 4000, ThorSecs: 600})
-	add(&propCfg{ID: "C08", Level: "exploration", Families: []famWeight{{"relay", 1, false}}, QuickRuns: 4000, ThorSecs: 600})
+	add(&propCfg{ID: "C08", Level: "exploration", Families: []famWeight{{"relay", 4, false}, {"rawclient", 1, false}}, QuickRuns: 4000, ThorSecs: 600})
 	add(&propCfg{ID: "C09", Level: "exploration", Families: []famWeight{{"relay", 3, false}, {"cancel", 1, false}}, QuickRuns: 4000, ThorSecs: 600})
 	add(&propCfg{ID: "C10", Level: "exploration", Families: []famWeight{{"rawclient", 2, false}, {"relay", 1, false}}, QuickRuns: 6000, ThorSecs: 600})
 	add(&propCfg{ID: "C11", Level: "exploration", Families: []famWeight{{"mesh", 1, false}, {"relay", 1, false}, {"hostile", 1, false}, {"close", 1, false}, {"pressure", 1, false}, {"poison", 1, false}, {"conns", 1, false}}, QuickRuns: 4000, ThorSecs: 600})
@@ -63,30 +63,30 @@ func props() map[string]*propCfg {
 }
 
 type agg struct {
-	mu          sync.Mutex
-	runs        int
-	completed   int
-	aborted     map[string]int
-	crashed     int
-	hangs       int
-	simNs       int64
-	steps       int64
-	switches    int64
-	goroutines  int64
-	fired       map[string]int
-	evals       map[string]int
-	probes      map[string]int
-	fps         map[string]bool
-	nontrivial  map[string]bool
-	sitePairs   map[uint64]bool
-	classes     map[string]int
-	famRuns     map[string]int
-	samples     []map[string]interface{}
-	ops         int64
-	otherProps  map[string]int
-	libPanics   int
-	wallMsTotal int64
-	panicNotes  []string
+	mu                                            sync.Mutex
+	runs                                          int
+	completed                                     int
+	aborted                                       map[string]int
+	crashed                                       int
+	hangs                                         int
+	simNs                                         int64
+	steps                                         int64
+	switches                                      int64
+	goroutines                                    int64
+	fired                                         map[string]int
+	evals                                         map[string]int
+	probes                                        map[string]int
+	fps                                           map[string]bool
+	nontrivial                                    map[string]bool
+	sitePairs                                     map[uint64]bool
+	classes                                       map[string]int
+	famRuns                                       map[string]int
+	samples                                       []map[string]interface{}
+	ops                                           int64
+	otherProps                                    map[string]int
+	libPanics                                     int
+	wallMsTotal                                   int64
+	panicNotes                                    []string
 	raceRuns, raceReports, raceNonLib, raceBroken int
 }
 
@@ -527,37 +527,37 @@ func writeEvidence(pc *propCfg, tier string, seed uint64, a *agg, wall float64, 
 		"distinct_nontrivial": len(a.nontrivial),
 		"rule": "one evaluation = one simulated run (own OS process, own synctest bubble) of a scenario drawn from the run seed in families " + strings.Join(famNames, ",") +
 			"; two runs are distinct when their schedule fingerprints differ (hash over the sequence of (goroutine identity, park site) at every context switch, per family); non-trivial = the run was not aborted, completed at least one operation and at least one fault or preemption actually fired",
-		"samples":                      samples,
-		"exhaustive":                   exhaustive,
-		"runs_completed":               a.completed,
-		"runs_aborted":                 a.aborted,
-		"runs_crashed":                 a.crashed,
-		"runs_hung":                    a.hangs,
-		"runs_per_hour":                int(float64(a.runs) / hours),
-		"simulated_time_s":             float64(a.simNs) / 1e9,
-		"simulated_s_per_hour":         float64(a.simNs) / 1e9 / hours,
-		"scheduling_points":            a.steps,
-		"context_switches":             a.switches,
-		"goroutines_started":           a.goroutines,
-		"operations_completed":         a.ops,
-		"distinct_schedule_fingerprints": len(a.fps),
-		"distinct_site_pair_switches":  len(a.sitePairs),
-		"faults_fired":                 a.fired,
-		"oracle_evaluations":           a.evals,
-		"probes":                       a.probes,
-		"run_classes":                  a.classes,
-		"runs_per_family":              a.famRuns,
+		"samples":                              samples,
+		"exhaustive":                           exhaustive,
+		"runs_completed":                       a.completed,
+		"runs_aborted":                         a.aborted,
+		"runs_crashed":                         a.crashed,
+		"runs_hung":                            a.hangs,
+		"runs_per_hour":                        int(float64(a.runs) / hours),
+		"simulated_time_s":                     float64(a.simNs) / 1e9,
+		"simulated_s_per_hour":                 float64(a.simNs) / 1e9 / hours,
+		"scheduling_points":                    a.steps,
+		"context_switches":                     a.switches,
+		"goroutines_started":                   a.goroutines,
+		"operations_completed":                 a.ops,
+		"distinct_schedule_fingerprints":       len(a.fps),
+		"distinct_site_pair_switches":          len(a.sitePairs),
+		"faults_fired":                         a.fired,
+		"oracle_evaluations":                   a.evals,
+		"probes":                               a.probes,
+		"run_classes":                          a.classes,
+		"runs_per_family":                      a.famRuns,
 		"violations_of_other_properties_noted": a.otherProps,
-		"known_findings_seen":          known,
-		"determinism_spot_check":       map[string]int{"seeds_rerun_at_other_GOMAXPROCS": detN, "mismatches": detBad},
-		"components":                   realStub,
+		"known_findings_seen":                  known,
+		"determinism_spot_check":               map[string]int{"seeds_rerun_at_other_GOMAXPROCS": detN, "mismatches": detBad},
+		"components":                           realStub,
 	}
 	if pc.Race {
 		cov["race_pass"] = map[string]interface{}{
-			"runs_under_race_build":                        a.raceRuns,
-			"runs_not_completed":                           a.raceBroken,
-			"detector_reports":                             a.raceReports,
-			"reports_not_between_two_library_accesses":     a.raceNonLib,
+			"runs_under_race_build":                    a.raceRuns,
+			"runs_not_completed":                       a.raceBroken,
+			"detector_reports":                         a.raceReports,
+			"reports_not_between_two_library_accesses": a.raceNonLib,
 			"how": "same families under a -race build: simrt and the harness are compiled without race instrumentation and the scheduler's hand-offs run with race synchronisation events ignored, so only the happens-before edges of the program itself remain (Go channels, atomics, context, timers natively; sync.Mutex/RWMutex/WaitGroup/Once/Pool replaced by simulated ones that announce the same edges; a socket write happens-before every later socket read, as in package syscall). Reports whose two accesses are not both made by library code are noise from the uninstrumented harness calling instrumented standard-library code and are counted, not judged. Self-test: ./check selftest race",
 		}
 	}
